@@ -61,7 +61,10 @@ class ServerContext(object):
         # and that the token always has 30th bit set
         token &= 0x7fffffff
         token |= 0x40000000
-        while token == 0 or token in self.connections or token in self.temp_connections:
+        # the connection tables are keyed by address: compare with the tokens in use
+        in_use = set(client.token for client in self.connections.values())
+        in_use.update(client.token for client in self.temp_connections.values())
+        while token == 0 or token in in_use:
             token, = struct.unpack(">L", os.urandom(4))
             token &= 0x7fffffff
             token |= 0x40000000
